@@ -357,6 +357,7 @@ func mergeContracts(dst, src *Contract) {
 	dst.Honest = append(dst.Honest, src.Honest...)
 	dst.Modifies = append(dst.Modifies, src.Modifies...)
 	dst.Uses = append(dst.Uses, src.Uses...)
+	dst.Ghosts = append(dst.Ghosts, src.Ghosts...)
 	for k, v := range src.LoopInv {
 		dst.LoopInv[k] = append(dst.LoopInv[k], v...)
 	}
